@@ -14,6 +14,8 @@ func init() { groups["detector"] = genDetector06 }
 
 const c06Marker = "::TRZSZ:TRANSFER:"
 
+var c06Earlier bool // set by c06Prefix: the prefix holds earlier markers but no control-mode framing
+
 type c06Call struct {
 	tunnel bool
 	buf    []byte
@@ -103,7 +105,7 @@ func c06Hist(c *ctx, flags [3]bool, seed map[string]int, calls []c06Call) c06Res
 				want = d.RewriteTrigger(cl.buf)
 			}
 			if !bytes.Equal(out, want) {
-				c.violate("silent:"+key, "no trigger but the output was changed", fmt.Sprintf("%s out=%s", key, hx(out)))
+				c.violate("silent", "no trigger but the output was changed", fmt.Sprintf("%s out=%s", key, hx(out)))
 			}
 		} else {
 			c.count("call:fired")
@@ -116,12 +118,12 @@ func c06Hist(c *ctx, flags [3]bool, seed map[string]int, calls []c06Call) c06Res
 					d2 := trzsz.VerifNewDetector(false, tm)
 					o2, t2 := d2.Detect(out, cl.tunnel)
 					if t2 != nil || !bytes.Equal(o2, out) {
-						c.violate("inert:"+key, "client-mode output triggers a second client-mode detector", fmt.Sprintf("%s out=%s second=%s", key, hx(out), c06TrigStr(t2)))
+						c.violate("inert", "client-mode output triggers a second client-mode detector", fmt.Sprintf("%s out=%s second=%s", key, hx(out), c06TrigStr(t2)))
 					}
 				}
 			} else {
 				if !bytes.Contains(out, []byte("#R")) {
-					c.violate("relay-mark:"+key, "relay output lacks #R", fmt.Sprintf("%s out=%s", key, hx(out)))
+					c.violate("relay-mark", "relay output lacks #R", fmt.Sprintf("%s out=%s", key, hx(out)))
 				}
 			}
 		}
@@ -271,6 +273,7 @@ func (c *ctx) c06Noise(n int) string {
 var c06Words = []string{"#CFG:", "Saved", "Cancelled", "Stopped", "Interrupted"}
 
 func (c *ctx) c06Prefix() (string, bool) {
+	c06Earlier = false
 	// returns a prefix and whether it is "clean" (no marker, no '%', so no control-mode framing)
 	switch c.rng.Intn(14) {
 	case 0, 10:
@@ -282,9 +285,11 @@ func (c *ctx) c06Prefix() (string, bool) {
 		s := c.c06Noise(c.rng.Intn(30))
 		return s, !strings.Contains(s, "%") && !strings.Contains(s, c06Marker)
 	case 3:
-		return c.c06RandTrig().text() + c.c06Noise(c.rng.Intn(5)), false
+		c06Earlier = true
+		return c.c06RandTrig().text() + strings.ReplaceAll(c.c06Noise(c.rng.Intn(5)), "%", "$"), false
 	case 4:
-		return c06Marker + c.c06Noise(c.rng.Intn(8)), false
+		c06Earlier = true
+		return c06Marker + strings.ReplaceAll(c.c06Noise(c.rng.Intn(8)), "%", "$"), false
 	case 5, 6:
 		f := c06Frames[c.rng.Intn(len(c06Frames))]
 		return c.c06Noise(c.rng.Intn(4)) + f + strings.ReplaceAll(c.c06Noise(c.rng.Intn(6)), "%", "x"), false
@@ -357,11 +362,19 @@ func genDetector06(c *ctx) {
 		buf := pre + t.text()
 		clean = clean && c06CleanTail(t.tailStr) && len(buf) >= 24
 		out, got := single(flags, tunnel, buf)
+		if c06Earlier && c06CleanTail(t.tailStr) && !(flags[0] && flags[1]) {
+			// earlier markers / complete triggers in the same read: the LAST one counts
+			c.count("grammar:after-earlier-marker")
+			if want := t.expect(false, false); !c06SameTrig(got, want) {
+				c.violate("last-wins", "with several markers in one read the last trigger did not start exactly the advertised transfer",
+					fmt.Sprintf("flags=%s tunnel=%v buf=%q got=%s want=%s", c06Flags(flags), tunnel, buf, c06TrigStr(got), c06TrigStr(want)))
+			}
+		}
 		if clean {
 			c.count("grammar:clean")
 			want := t.expect(flags[0], flags[1])
 			if !c06SameTrig(got, want) {
-				c.violate(fmt.Sprintf("fires:f=%s,buf=%s", c06Flags(flags), hx([]byte(buf))), "a trigger of the grammar with a fresh id in a clean context did not start exactly the advertised transfer",
+				c.violate("fires", "a trigger of the grammar with a fresh id in a clean context did not start exactly the advertised transfer",
 					fmt.Sprintf("flags=%s tunnel=%v buf=%q got=%s want=%s", c06Flags(flags), tunnel, buf, c06TrigStr(got), c06TrigStr(want)))
 			}
 			if want != nil && got != nil && flags[0] {
@@ -369,7 +382,7 @@ func genDetector06(c *ctx) {
 				d2 := trzsz.VerifNewDetector(false, false)
 				_, t2 := d2.Detect(out, tunnel)
 				if !c06SameTrig(t2, got) {
-					c.violate(fmt.Sprintf("forward:f=%s,buf=%s", c06Flags(flags), hx([]byte(buf))), "relay output is not recognised identically by a client",
+					c.violate("forward", "relay output is not recognised identically by a client",
 						fmt.Sprintf("buf=%q relay-out=%q relay=%s client=%s", buf, out, c06TrigStr(got), c06TrigStr(t2)))
 				}
 			}
@@ -385,7 +398,32 @@ func genDetector06(c *ctx) {
 				t := c06Trig{mode: 'R', ver: [3]string{"1", "1", "6"}, id: &id, port: c06Sp("1337"), head: "\x1b7\x07", tailStr: "\r\n"}
 				_, got := single(f, false, t.text())
 				if want := t.expect(f[0], f[1]); !c06SameTrig(got, want) {
-					c.violate("fires-suffix:"+c06Flags(f)+":"+id, "id suffix handling", fmt.Sprintf("id=%s flags=%s got=%s want=%s", id, c06Flags(f), c06TrigStr(got), c06TrigStr(want)))
+					c.violate("fires-suffix", "id suffix handling", fmt.Sprintf("id=%s flags=%s got=%s want=%s", id, c06Flags(f), c06TrigStr(got), c06TrigStr(want)))
+				}
+			}
+		}
+	}
+
+	// ---- 2b. tmux control-mode framing: fires only with a tunnel and a port, and reports the framing
+	for _, fr := range c06Frames[:4] {
+		for _, mid := range []string{"", "\x1b7\x07", "abc ", "\xff"} {
+			for _, port := range []*string{nil, c06Sp("1337")} {
+				for _, f := range allFlags {
+					for _, tn := range []bool{false, true} {
+						t := c06Trig{mode: 'R', ver: [3]string{"1", "0", "0"}, id: c06Sp("0"), port: port, tailStr: "ABC"}
+						_, got := single(f, tn, fr+mid+t.text())
+						want := t.expect(f[0], f[1])
+						if tn && port != nil {
+							want.TmuxPrefix = fr
+						} else {
+							want = nil
+						}
+						if !c06SameTrig(got, want) {
+							c.violate("ctrl-mode", "tmux control-mode framing: a transfer must start only with a tunnel and a port, and carry the framing prefix",
+								fmt.Sprintf("flags=%s tunnel=%v buf=%q got=%s want=%s", c06Flags(f), tn, fr+mid+t.text(), c06TrigStr(got), c06TrigStr(want)))
+						}
+						c.count("ctrl-mode")
+					}
 				}
 			}
 		}
@@ -432,8 +470,12 @@ func genDetector06(c *ctx) {
 				for _, wd := range []string{w, w[:len(w)-1], strings.ToLower(w)} {
 					buf := trg + strings.Repeat(" ", pad) + wd + " x"
 					for _, f := range [][3]bool{{false, false, false}, {true, false, false}, {true, true, true}} {
-						single(f, false, buf)
-						single(f, false, "pre "+w+" "+buf)
+						_, t1 := single(f, false, buf)
+						_, t2 := single(f, false, "pre "+w+" "+buf)
+						if wd == w && off >= 40 && (t1 != nil || t2 != nil) {
+							c.violate("finished", "scroll-back of a finished transfer (word at offset >= 40 after the marker) started a transfer",
+								fmt.Sprintf("flags=%s buf=%q", c06Flags(f), buf))
+						}
 					}
 					c.count(fmt.Sprintf("finished:offset-%d", off))
 				}
@@ -492,11 +534,11 @@ func genDetector06(c *ctx) {
 			}
 			fired := r.trigs[i] != nil
 			if el && pos >= 0 && pos < 50 && fired {
-				c.violate(fmt.Sprintf("replay:h=%d,i=%d", h, i), "a replayed id within the window started a second transfer",
+				c.violate("replay", "a replayed id within the window started a second transfer",
 					fmt.Sprintf("flags=%s call=%d id=%s distance=%d", c06Flags(flags), i, id, pos))
 			}
 			if (!el || pos < 0) && !fired {
-				c.violate(fmt.Sprintf("fresh:h=%d,i=%d", h, i), "a trigger with a fresh id did not start a transfer",
+				c.violate("fresh", "a trigger with a fresh id did not start a transfer",
 					fmt.Sprintf("flags=%s call=%d id=%s", c06Flags(flags), i, id))
 			}
 			if el && pos >= 0 {
